@@ -425,3 +425,81 @@ B('j17_url_in_anchor_template', ['C17'], 'R17.f',
        "        cur_url_anchor = ('<a href=\"' + cur_url_text + '\">{0}</a>').format(cur_url_text)\n"))
 B('j17_encoder_message_template', ['C17'], 'R17.f',
   (RS, "        raise TypeError('cannot serialize to JSON: %r' % obj)", "        raise TypeError(('cannot serialize %s to JSON: ' % type(obj).__name__ + '%r') % obj)"))
+
+# ------------------------------------------------------------------ third pass
+# R17.b: the JSON guess is read by shape into one predicate over (empty?, first byte, last byte), whichever way it is
+# spelled: branching on comparisons, membership of the (first, last) pair / of the concatenation of the two one-byte
+# slices in a constant collection (folded), a loop / any() over a constant table of pairs, an opening -> closing table.
+# It must admit exactly the pairs ({, }) and ([, ]), reject the empty input and never touch an element of a possibly
+# empty value.
+_GJ_DEF = "    @staticmethod\n    def _guess_json(bytestr: bytes):\n"
+_GJ_CLASS = 'class BasicRender(object):\n'
+_GJ_GUARD = "        if not bytestr:\n            return False\n"
+
+
+def _gj_pairs(pairs, test='(first_byte, last_byte)', unpack="bytestr[:1], bytestr[-1:]", guard=_GJ_GUARD):
+    """The guess as membership of the (first, last) pair in a module-level constant."""
+    return [(RS, _GJ_CLASS, "_JSON_DELIMITERS = %s\n\n\n%s" % (pairs, _GJ_CLASS)),
+            (RS, _GJ, "%s        first_byte, last_byte = %s\n        return %s in _JSON_DELIMITERS\n" % (guard, unpack, test))]
+
+
+_PAIRS_OK = "((b'{', b'}'), (b'[', b']'))"
+T('j17_gj_pair_in_module_constant', ['C17'], *_gj_pairs(_PAIRS_OK))
+T('j17_gj_pair_in_frozenset', ['C17'], *_gj_pairs("frozenset([(b'[', b']'), (b'{', b'}')])"))
+T('j17_gj_pair_in_constant_no_guard', ['C17'], *_gj_pairs(_PAIRS_OK, guard=''))   # slices of b'' are b'': no pair matches
+B('j17_gj_pair_constant_pair_missing', ['C17'], 'R17.b', *_gj_pairs("((b'{', b'}'),)"))
+B('j17_gj_pair_constant_mismatched', ['C17'], 'R17.b', *_gj_pairs("((b'{', b']'), (b'[', b'}'))"))
+B('j17_gj_pair_constant_extra_pair', ['C17'], 'R17.b', *_gj_pairs("((b'{', b'}'), (b'[', b']'), (b'\"', b'\"'))"))
+B('j17_gj_pair_swapped', ['C17'], 'R17.b', *_gj_pairs(_PAIRS_OK, test='(last_byte, first_byte)'))
+B('j17_gj_pair_first_twice', ['C17'], 'R17.b', *_gj_pairs(_PAIRS_OK, unpack="bytestr[:1], bytestr[:1]"))
+B('j17_gj_pair_int_elements', ['C17'], 'R17.b', *_gj_pairs(_PAIRS_OK, unpack="bytestr[0], bytestr[-1]"))
+B('j17_gj_pair_str_constants', ['C17'], 'R17.b', *_gj_pairs("(('{', '}'), ('[', ']'))"))
+B('j17_gj_pair_list_vs_tuples', ['C17'], 'R17.b', *_gj_pairs(_PAIRS_OK, test='[first_byte, last_byte]'))
+# elements instead of slices are fine against int constants -- as long as emptiness is ruled out first
+T('j17_gj_int_pairs_guarded', ['C17'], *_gj_pairs("((123, 125), (91, 93))", unpack="bytestr[0], bytestr[-1]"))
+B('j17_gj_int_pairs_unguarded', ['C17'], 'R17.b', *_gj_pairs("((123, 125), (91, 93))", unpack="bytestr[0], bytestr[-1]", guard=''))
+B('j17_gj_int_pairs_indexed_before_guard', ['C17'], 'R17.b',
+  (RS, _GJ_CLASS, "_JSON_DELIMITERS = ((123, 125), (91, 93))\n\n\n" + _GJ_CLASS),
+  (RS, _GJ, "        first_byte, last_byte = bytestr[0], bytestr[-1]\n" + _GJ_GUARD + "        return (first_byte, last_byte) in _JSON_DELIMITERS\n"))
+# one expression; the concatenation of the two slices
+T('j17_gj_one_expression', ['C17'],
+  (RS, _GJ, "        return bool(bytestr) and (bytestr[:1], bytestr[-1:]) in ((b'{', b'}'), (b'[', b']'))\n"))
+B('j17_gj_one_expression_ints', ['C17'], 'R17.b',
+  (RS, _GJ, "        return bool(bytestr) and (bytestr[0], bytestr[-1]) in ((b'{', b'}'), (b'[', b']'))\n"))
+B('j17_gj_one_expression_or', ['C17'], 'R17.b',
+  (RS, _GJ, "        return bool(bytestr) or (bytestr[:1], bytestr[-1:]) in ((b'{', b'}'), (b'[', b']'))\n"))
+T('j17_gj_concatenation', ['C17'], (RS, _GJ, "        return bytestr[:1] + bytestr[-1:] in (b'{}', b'[]')\n"))
+T('j17_gj_concatenation_class_set', ['C17'],
+  (RS, _GJ_DEF + _GJ, "    _JSON_ENDS = {b'{}', b'[]'}\n\n    @classmethod\n    def _guess_json(cls, bytestr: bytes):\n"
+       "        ends = bytestr[0:1] + bytestr[-1:]\n        return len(bytestr) >= 2 and ends in cls._JSON_ENDS\n"))
+B('j17_gj_concatenation_wrong_constant', ['C17'], 'R17.b', (RS, _GJ, "        return bytestr[:1] + bytestr[-1:] in (b'{}', b'[)')\n"))
+B('j17_gj_concatenation_reversed', ['C17'], 'R17.b', (RS, _GJ, "        return bytestr[-1:] + bytestr[:1] in (b'{}', b'[]')\n"))
+B('j17_gj_concatenation_str_constants', ['C17'], 'R17.b', (RS, _GJ, "        return bytestr[:1] + bytestr[-1:] in ('{}', '[]')\n"))
+B('j17_gj_concatenation_accepts_empty', ['C17'], 'R17.b', (RS, _GJ, "        return bytestr[:1] + bytestr[-1:] in (b'', b'{}', b'[]')\n"))
+# loop / any() over a constant table of pairs; opening -> closing table
+_GJ_LOOP = _GJ_GUARD + '''        for opening, closing in %s:
+            if bytestr[:1] == opening and bytestr[-1:] == closing:
+                return True
+        return False
+'''
+T('j17_gj_pair_loop', ['C17'], (RS, _GJ, _GJ_LOOP % _PAIRS_OK))
+B('j17_gj_pair_loop_swapped', ['C17'], 'R17.b', (RS, _GJ, _GJ_LOOP % "((b'{', b']'), (b'[', b'}'))"))
+B('j17_gj_pair_loop_first_only', ['C17'], 'R17.b',
+  (RS, _GJ, _GJ_GUARD + "        for opening, closing in %s:\n            if bytestr[:1] == opening:\n                return True\n        return False\n" % _PAIRS_OK))
+T('j17_gj_any_startswith_endswith', ['C17'],
+  (RS, _GJ_CLASS, "_JSON_DELIMITERS = %s\n\n\n%s" % (_PAIRS_OK, _GJ_CLASS)),
+  (RS, _GJ, "        return any(bytestr.startswith(o) and bytestr.endswith(c) for o, c in _JSON_DELIMITERS)\n"))
+B('j17_gj_any_startswith_or_endswith', ['C17'], 'R17.b',
+  (RS, _GJ_CLASS, "_JSON_DELIMITERS = %s\n\n\n%s" % (_PAIRS_OK, _GJ_CLASS)),
+  (RS, _GJ, "        return any(bytestr.startswith(o) or bytestr.endswith(c) for o, c in _JSON_DELIMITERS)\n"))
+_GJ_TABLE = ("    _JSON_BRACKETS = %s\n\n    @classmethod\n    def _guess_json(cls, bytestr):\n"
+             "        first, last = bytestr[:1], bytestr[-1:]\n        return bool(first) and cls._JSON_BRACKETS.get(first) == last\n")
+T('j17_gj_table', ['C17'], (RS, _GJ_DEF + _GJ, _GJ_TABLE % "{b'{': b'}', b'[': b']'}"))
+B('j17_gj_table_closing_to_opening', ['C17'], 'R17.b', (RS, _GJ_DEF + _GJ, _GJ_TABLE % "{b'}': b'{', b']': b'['}"))
+B('j17_gj_table_int_keys', ['C17'], 'R17.b', (RS, _GJ_DEF + _GJ, _GJ_TABLE % "{123: 125, 91: 93}"))
+# the branching form: one matching pair replaced by a mismatched one; the empty input answered by an exception
+B('j17_gj_branch_mismatched', ['C17'], 'R17.b', (RS, "bytestr[:1] == b'[' and bytestr[-1:] == b']'", "bytestr[:1] == b'[' and bytestr[-1:] == b'}'"))
+B('j17_gj_branch_last_open', ['C17'], 'R17.b', (RS, "bytestr[:1] == b'[' and bytestr[-1:] == b']'", "bytestr[:1] == b'['"))
+B('j17_gj_empty_raises', ['C17'], 'R17.b', (RS, _GJ_GUARD, "        if not bytestr:\n            raise ValueError('empty body')\n"))
+B('j17_gj_always_false', ['C17'], 'R17.b', (RS, _GJ, "        return False\n"))
+T('j17_gj_len_guard', ['C17'], (RS, _GJ_GUARD, "        if len(bytestr) < 2:\n            return False\n"))
